@@ -126,7 +126,7 @@ def h2_labels(timeout=150, part=None, exclude=(), **kw):
     import pdfminer.pdfdocument as pd
     from pdfminer.psparser import LIT
 
-    def fn(ex):
+    def fn_body(ex):
         nr = 1 + ex.choice(3, "nranges")
         focus = ex.choice(nr, "focus")               # one range is fully symbolic, the others are plain decimal ranges
         starts = [0]
@@ -143,11 +143,15 @@ def h2_labels(timeout=150, part=None, exclude=(), **kw):
             ranges.append((starts[r], st, first, pre))
         doc = Doc()
         nums = []
+        stkeys = []
+        # settings.STRICT only decides how *ill-typed* values are treated; every dictionary here is conformant, so the labels are the same under both
+        strict = bool(ex.choice(2, "strict"))
         for (s, st, first, pre) in ranges:
             d = {}
             if st:
                 d["S"] = LIT(st)
-            if first != 1 or (s == starts[focus] and ex.choice(2, "explicit_st")):
+            stkeys.append(bool(first != 1 or (s == starts[focus] and ex.choice(2, "explicit_st"))))
+            if stkeys[-1]:
                 d["St"] = first
             if pre:
                 d["P"] = pre
@@ -159,7 +163,9 @@ def h2_labels(timeout=150, part=None, exclude=(), **kw):
         else:
             tree = {"Nums": nums}
         npages = starts[-1] + 3
-        info = {"ranges": [(s, st, first, pre.hex() if pre else None) for (s, st, first, pre) in ranges], "kids": kids_form}
+        info = {"ranges": [(s, st, first, pre.hex() if pre else None) for (s, st, first, pre) in ranges], "kids": kids_form, "stkeys": stkeys, "strict": strict}
+        import pdfminer.settings as _settings
+        _settings.STRICT = strict
         it = pd.PageLabels(tree).labels
         for page in range(npages):
             r = max(i for i in range(nr) if starts[i] <= page)
@@ -178,10 +184,18 @@ def h2_labels(timeout=150, part=None, exclude=(), **kw):
                 ex.require(False, "labels raised %s: %s at page %d" % (type(e).__name__, e, page), page=page, **info)
             ex.require(got == exp, "label of page index %d is %r, ISO 32000-1 12.4.2 gives %r" % (page, got, exp), page=page, **info)
 
+    def fn(ex):
+        import pdfminer.settings as _settings
+        old = _settings.STRICT
+        try:
+            return fn_body(ex)
+        finally:
+            _settings.STRICT = old
+
     def conc(m, info):
         return info
     return core.run_symx("H2_labels", fn, [pd.PageLabels.labels.fget, pd.PageLabels._format_page_label],
-                         {"ranges": "1..3, gaps 1..3 pages", "styles": STYLES, "St": STARTS, "prefix": "none / PDFDocEncoding / UTF-16BE", "tree": "Nums at the root or in a kid",
+                         {"ranges": "1..3, gaps 1..3 pages", "styles": STYLES, "St": STARTS, "prefix": "none / PDFDocEncoding / UTF-16BE", "tree": "Nums at the root or in a kid", "settings.STRICT": "off / on (all dictionaries conformant)",
                           "note": "structure by symbolic choice, values concrete per path"}, timeout, concretize=conc, part=part)
 
 
@@ -476,8 +490,9 @@ def replay(harness, inp):
         from pdfminer.psparser import LIT
         ranges = [(s, st, first, bytes.fromhex(pre) if pre else None) for (s, st, first, pre) in inp["ranges"]]
         nums = []
-        for (s, st, first, pre) in ranges:
-            d = {"St": first}
+        stkeys = inp.get("stkeys") or [True] * len(ranges)
+        for (s, st, first, pre), has_st in zip(ranges, stkeys):
+            d = {"St": first} if has_st else {}
             if st:
                 d["S"] = LIT(st)
             if pre:
@@ -493,14 +508,20 @@ def replay(harness, inp):
         r = max(i for i in range(len(ranges)) if ranges[i][0] <= page)
         s, st, first, pre = ranges[r]
         exp = {None: "", b"p-": "p-", b"\xfe\xff\x00A": "A"}[pre] + ref_label(st, first + page - s)
-        for attempt in ("first", "second"):           # the labels read twice in one process: both evaluations have to be right
-            it = pd.PageLabels(tree).labels
-            try:
-                got = [next(it) for _ in range(page + 1)][-1]
-            except Exception as e:
-                return "PageLabels(%r): label of page %d raised %r" % (tree, page, e)
-            if got != exp:
-                return "PageLabels(%r), %s evaluation: label of page index %d is %r, ISO 32000-1 12.4.2 gives %r" % (tree, attempt, page, got, exp)
+        import pdfminer.settings as _settings
+        old_strict, _settings.STRICT = _settings.STRICT, bool(inp.get("strict", False))
+        try:
+            for attempt in ("first", "second"):           # the labels read twice in one process: both evaluations have to be right
+                it = pd.PageLabels(tree).labels
+                try:
+                    got = [next(it) for _ in range(page + 1)][-1]
+                except Exception as e:
+                    return "PageLabels(%r), settings.STRICT=%r: label of page %d raised %r" % (tree, _settings.STRICT, page, e)
+                if got != exp:
+                    return "PageLabels(%r), settings.STRICT=%r, %s evaluation: label of page index %d is %r, ISO 32000-1 12.4.2 gives %r" % (
+                        tree, _settings.STRICT, attempt, page, got, exp)
+        finally:
+            _settings.STRICT = old_strict
         return None
     if harness == "H4_names":
         from pdfminer.pdfdocument import PDFDestinationNotFound
